@@ -63,6 +63,7 @@ func compileVariant(w *W, tree *Node, src string, cfg CaseCfg, label string) (*V
 	v := &Variant{Cfg: cfg, Label: label, Src: src, CfgRec: &Recorder{}}
 	v.CC = buildConfig(cfg, v.CfgRec)
 	e, co := compileGuard(v.CC, src)
+	w.Evals++
 	if co.Panic != nil {
 		w.Fail("compile-panic/"+normPanic(co.Panic)+"@"+panicSite(co.Stack), "Compile panicked: %v\nsource: %s\nconfig: %s\n%s", co.Panic, src, cfg, co.Stack)
 		return nil, false
